@@ -475,6 +475,15 @@ func prepareCall(fr *frame, call *ssa.CallCommon) (fn value, args []value) {
 		if recv.t == nil {
 			panic("method invoked on nil interface")
 		}
+		if recv.t == cacheType {
+			name := call.Method.Name()
+			c := (*recv.v.(*value)).(*cacheState)
+			fn = hostFn(func(args []value) value { return cacheMethod(c, name, args) })
+			for _, arg := range call.Args {
+				args = append(args, fr.get(arg))
+			}
+			return
+		}
 		if recv.t == b2bType {
 			name := call.Method.Name()
 			rv := recv.v
